@@ -817,6 +817,22 @@ impl<'a> Attributes<'a> {
         }
     }
 //@end
+//@extract attributes::Attributes::new | src/events/attributes.rs :: impl<'a> Attributes<'a> :: fn new | serves=C11
+ pub fn new(buf: &'a str, pos: usize) -> (r: Self)
+        // XML rules (C11): the iterator over the bytes of `buf`, starting at `pos`, duplicates checked
+        ensures r.bytes@ == buf.spec_bytes(), !r.state.html, r.state.check_duplicates, r.state.keys@.len() == 0, r.state.state == State::Next(pos)
+ {
+        Self::wrap(buf.as_bytes(), pos, false)
+    }
+//@end
+//@extract attributes::Attributes::html | src/events/attributes.rs :: impl<'a> Attributes<'a> :: fn html | serves=C11
+ pub fn html(buf: &'a str, pos: usize) -> (r: Self)
+        // the same with the HTML rules (unquoted values, keys without value)
+        ensures r.bytes@ == buf.spec_bytes(), r.state.html, r.state.check_duplicates, r.state.keys@.len() == 0, r.state.state == State::Next(pos)
+ {
+        Self::wrap(buf.as_bytes(), pos, true)
+    }
+//@end
 }
 impl<'a> BytesStart<'a> {
 //@extract events::BytesStart::attributes | src/events/mod.rs :: impl<'a> BytesStart<'a> :: fn attributes | serves=C09,C11
